@@ -866,6 +866,33 @@ func farHints(r *ev.Run, id string) {
 				r.Eval("far-hint/honoured")
 			}
 		}
+		if g.n > 1<<17 {
+			// 70 000 un-hinted allocations in a row on a pool far larger than that: every one
+			// succeeds and returns a block not handed out before
+			sc := "70000 un-hinted allocations in a row"
+			end := reg.OpBegin(fmt.Sprintf("pool %v: %s", p, sc))
+			a := newAlloc(p)
+			seen := make(map[int64]bool, 70000)
+			for i := 0; i < 70000; i++ {
+				n, err := a.Allocate(net.IPNet{})
+				if err != nil {
+					viol("C05", "alloc-fails-with-free-blocks/long-run", fmt.Sprintf("%s: allocation %d failed (%v) with %d of %d blocks outstanding", sc, i+1, err, i, g.n), sc)
+					break
+				}
+				b := g.blockOf(new(big.Int).SetBytes(n.IP))
+				if b < 0 {
+					viol("C05", "outside-pool/long-run", fmt.Sprintf("%s: allocation %d returned %v", sc, i+1, n), sc)
+					break
+				}
+				if seen[b] {
+					viol("C04", "double-allocation/long-run", fmt.Sprintf("%s: allocation %d returned block %d a second time", sc, i+1, b), sc)
+					break
+				}
+				seen[b] = true
+			}
+			end()
+			r.Eval("long-run-of-allocations")
+		}
 	}
 }
 
